@@ -32,13 +32,15 @@ pub struct RawCfg {
     pub unlisted_cells: bool,
     /// a layout view may carry a name of its own, different from its cell's (without the other `odd_views`)
     pub view_names: bool,
+    /// shapes on DIFFERENT layer numbers may lie on top of each other (as metal over poly does); same-number shapes stay apart
+    pub cross_layer_overlap: bool,
 }
 impl RawCfg {
     pub fn gds() -> Self {
-        RawCfg { units: vec![Units::Micro, Units::Nano, Units::Angstrom, Units::Pico], abstracts: false, annotations: false, nets: true, general_polygons: true, paths: true, max_cells: 6, max_elems: 8, right_angles_only: true, inst_names: false, hostile_layers: false, shared_layer_numbers: false, odd_views: false, unlisted_cells: false, view_names: false }
+        RawCfg { units: vec![Units::Micro, Units::Nano, Units::Angstrom, Units::Pico], abstracts: false, annotations: false, nets: true, general_polygons: true, paths: true, max_cells: 6, max_elems: 8, right_angles_only: true, inst_names: false, hostile_layers: false, shared_layer_numbers: false, odd_views: false, unlisted_cells: false, view_names: false, cross_layer_overlap: false }
     }
     pub fn proto() -> Self {
-        RawCfg { units: vec![Units::Micro, Units::Nano, Units::Angstrom], abstracts: true, annotations: true, nets: true, general_polygons: true, paths: true, max_cells: 6, max_elems: 8, right_angles_only: true, inst_names: true, hostile_layers: false, shared_layer_numbers: false, odd_views: true, unlisted_cells: false, view_names: false }
+        RawCfg { units: vec![Units::Micro, Units::Nano, Units::Angstrom], abstracts: true, annotations: true, nets: true, general_polygons: true, paths: true, max_cells: 6, max_elems: 8, right_angles_only: true, inst_names: true, hostile_layers: false, shared_layer_numbers: false, odd_views: true, unlisted_cells: false, view_names: false, cross_layer_overlap: false }
     }
 }
 
@@ -75,7 +77,10 @@ pub fn rand_layers_cfg(rng: &mut Rng, hostile: bool, shared_only: bool) -> Layer
         let k = rng.range(0, 200) as i16;
         if share && !nums.is_empty() && rng.chance(2, 3) {
             let again = *rng.pick(&nums);
-            nums.push(again); // another layer on the same GDSII layer number (as met1 / via share 68 in the crate's own test set)
+            // another layer on the same GDSII layer number (as met1 / via share 68 in the crate's own test set) - or, one time in three, on
+            // that number plus 256 (numbers run to 32767; tables indexed by a byte would fold the two together)
+            let cand = if rng.chance(1, 3) && again < 32000 { again + 256 } else { again };
+            nums.push(cand);
         } else if !nums.contains(&k) {
             nums.push(k);
         }
@@ -326,8 +331,21 @@ pub fn rand_raw_lib(rng: &mut Rng, cfg: &RawCfg) -> GenRaw {
             let lay_name = if (cfg.odd_views || cfg.view_names) && rng.chance(1, 4) { format!("{}_impl", name) } else { name.clone() };
             let mut lay = Layout { name: lay_name, ..Default::default() };
             let ne = rng.usize(cfg.max_elems + 1);
+            let mut slots: Vec<(i64, Vec<i16>)> = Vec::new();
             for k in 0..ne {
                 let (key, _num, purps) = rng.pick(&defs.table).clone();
+                // where the element goes: a slot of its own, or (cross_layer_overlap) the slot of an earlier element on another layer number
+                let slot_k = {
+                    let free: Vec<usize> = (0..slots.len()).filter(|s| !slots[*s].1.contains(&_num)).collect();
+                    if cfg.cross_layer_overlap && !free.is_empty() && rng.chance(1, 3) {
+                        let s = *rng.pick(&free);
+                        slots[s].1.push(_num);
+                        slots[s].0
+                    } else {
+                        slots.push((k as i64, vec![_num]));
+                        k as i64
+                    }
+                };
                 let (mut purpose, _) = rng.pick(&purps).clone();
                 // hostile sets: now and then a shape names its purpose without knowing the layer's number for it (Named(name, 0)): that
                 // purpose is not registered, and an exporter can only refuse - the same way every time
@@ -335,7 +353,7 @@ pub fn rand_raw_lib(rng: &mut Rng, cfg: &RawCfg) -> GenRaw {
                     let li = defs.table.iter().position(|t| t.0 == key).unwrap_or(0);
                     purpose = LayerPurpose::Named(format!("alias{}", li), 0);
                 }
-                let (mut inner, _) = rand_shape(rng, cfg, (k as i64 * 1000, (i as i64 % 3) * 1000));
+                let (mut inner, _) = rand_shape(rng, cfg, (slot_k * 1000, (i as i64 % 3) * 1000));
                 if cfg.odd_views && rng.chance(1, 12) {
                     // an exact axis-aligned rectangle given as a four-point polygon in the order (x0,y0) (x1,y0) (x1,y1) (x0,y1)
                     if let Shape::Rect(r) = &inner {
@@ -354,7 +372,8 @@ pub fn rand_raw_lib(rng: &mut Rng, cfg: &RawCfg) -> GenRaw {
                         _ => {}
                     }
                 }
-                let net = if cfg.nets && rng.chance(1, 2) { Some(format!("{}{}_{}", rng.pick(&["net", "VDD", "Clk", "a"]), i, k)) } else { None };
+                // net names: identifiers, some with letters outside ASCII (I_10µA, Übertrag, Ω_ref, шина: names are text, not bytes)
+                let net = if cfg.nets && rng.chance(1, 2) { Some(format!("{}{}_{}", rng.pick(&["net", "VDD", "Clk", "a", "I_10µA", "Übertrag", "Ω", "шина", "net_é"]), i, k)) } else { None };
                 // a thin named neighbour on the same layer/purpose, not touching the shape: one unit clear of a rectangle's or polygon's
                 // bounding box, and the closest integer line beyond a single-segment path's edge (half a unit clear for odd widths)
                 let neighbour = if cfg.nets && rng.chance(1, 3) {
